@@ -139,7 +139,10 @@ Section Ctl.
   (* ---- krylov(): whatever scipy does, as an event trace ----------------------- *)
   Inductive kev : Type :=
   | Callback (x : fld)                    (* callback(x) *)
-  | Precond (n0 : num) (ns : list num)    (* M.matvec: multigrid on a zero field; initial norm, norm after each cycle *)
+  | Precond (n0 : num) (ns : list num) (lr : num)
+      (* M.matvec: multigrid on a zero field; initial norm, norm after each cycle; lr: the value the
+         coarse-grid recursion left in var.l2 (multigrid() ends with var.l2 = l2_last on EVERY level),
+         visible only when the fine-grid call raises before its own var.l2 = l2_last *)
   | Return (x : fld) (code : Z).          (* return x, info *)
 
   Record kst : Type := {
@@ -158,7 +161,7 @@ Section Ctl.
         krylov_run tr' c l2_refe
           {| k_l2 := l2; k_ssl_it := k_ssl_it s + 1; k_varit := k_varit s; k_msg := k_msg s;
              k_errs := k_errs s ++ [l2] |}
-    | Precond n0 ns :: tr' =>
+    | Precond n0 ns lr :: tr' =>
         if c_cycle c then
           let r := mg_list ns c l2_refe (mg_start c n0 (k_varit s) (k_msg s) (k_errs s)) in
           let s' := fst (fst (fst r)) in
@@ -166,7 +169,7 @@ Section Ctl.
           else if negb (Nat.eqb (snd r) 0) then KIll
           else if snd (fst r)
             then (* raised inside _terminate: `var.l2 = l2_last` is not reached *)
-              KAbort {| k_l2 := k_l2 s; k_ssl_it := k_ssl_it s; k_varit := m_varit s';
+              KAbort {| k_l2 := lr; k_ssl_it := k_ssl_it s; k_varit := m_varit s';
                         k_msg := m_msg s'; k_errs := m_errs s' |}
             else krylov_run tr' c l2_refe
               {| k_l2 := m_l2 s'; k_ssl_it := k_ssl_it s; k_varit := m_varit s';
@@ -214,62 +217,104 @@ Section Ctl.
   (* the fields the caller ends up holding *)
   Definition held (r : result) : list fld := olist (r_caller r) ++ olist (r_returned r).
 
+  (* the pieces of solve() before the dispatch, named so that theorems can refer to them *)
+  Definition e0_of (supplied : option sup) : fld :=        (* content of the field object before the solve *)
+    match supplied with
+    | Some u => if supplied_field_pec_zeroed then pec (u_fld u) else u_fld u
+    | None => zero end.
+  Definition tag0_of (s : src) (supplied : option sup) : bool :=
+    match supplied with Some u => u_complex u | None => s_complex s end.
+  Definition do_return_of (c : cfg) (supplied : option sup) : bool :=
+    match supplied with Some _ => c_always_return c | None => true end.
+  Definition l2_0_of (supplied : option sup) : num :=      (* var.l2 before the solve *)
+    match supplied with Some _ => resnorm (e0_of supplied) | None => nofZ 1 end.
+  Definition good_of (c : cfg) (s : src) (supplied : option sup) : bool :=
+    match supplied with
+    | Some _ => good_enough num ltb mul (c_tol c) (s_norm s) (l2_0_of supplied) | None => false end.
+  Definition zs_of (s : src) : bool := zero_source num ltb tiny100 (s_norm s).
+  Definition kst0 (s : src) (supplied : option sup) : kst :=
+    {| k_l2 := l2_0_of supplied; k_ssl_it := 0; k_varit := 0; k_msg := ""; k_errs := [s_norm s] |}.
+  Definition caller_of (supplied : option sup) (same : bool) (obj : fld) : option fld :=
+    match supplied with Some _ => Some (if same then obj else e0_of supplied) | None => None end.
+
   Definition solve_ctl (c : cfg) (s : src) (supplied : option sup) (tr : list kev) : outcome :=
     if (negb (c_ssl c) && negb (c_cycle c))%bool then Err ErrConfig     (* MGParameters *)
+    else if negb (s_has_freq s) then Err ErrFreq
+    else if match supplied with
+            | Some u => negb (Bool.eqb (u_complex u) (s_complex s)) | None => false end
+    then Err ErrDtype
     else
-    let l2_refe := s_norm s in
-    let errs := [l2_refe] in
-    if negb (s_has_freq s) then Err ErrFreq
-    else
-    (* Get efield *)
-    let bad_dtype := match supplied with
-                     | Some u => negb (Bool.eqb (u_complex u) (s_complex s)) | None => false end in
-    if bad_dtype then Err ErrDtype
-    else
-    let e0 := match supplied with
-              | Some u => if supplied_field_pec_zeroed then pec (u_fld u) else u_fld u
-              | None => zero end in
-    let tag0 := match supplied with Some u => u_complex u | None => s_complex s end in
-    let do_return := match supplied with Some _ => c_always_return c | None => true end in
-    let l2_0 := match supplied with Some _ => resnorm e0 | None => nofZ 1 end in
-    let good := match supplied with
-                | Some _ => good_enough num ltb mul (c_tol c) l2_refe l2_0 | None => false end in
-    let ssl1 := (c_ssl c && negb good)%bool in
-    let cyc1 := (c_cycle c && negb good)%bool in
-    let msg1 := if good then good_enough_message else "" in
-    (* Check if sfield is zero *)
-    let zs := zero_source num ltb tiny100 l2_refe in
-    let l2_refe2 := if zs then nan else l2_refe in
-    let ssl2 := (ssl1 && negb zs)%bool in
-    let cyc2 := (cyc1 && negb zs)%bool in
-    let msg2 := if zs then zero_source_message else msg1 in
-    let obj2 := if zs then zero else e0 in
-    let same2 := if zs then v_zero_inplace VV else true in
-    let tag2 := if zs then (if v_zero_inplace VV then tag0 else s_complex s) else tag0 in
-    let l2_2 := if (zs && v_zero_l2 VV)%bool then nofZ 0 else l2_0 in
-    let br := if zs then BZero else if good then BGood else if ssl2 then BKrylov else BMG in
-    (* the content of the caller's object before the solve *)
-    let finish (obj : fld) (l2 : num) (msg : string) (it ssl_it : Z) (errs' : list num) : outcome :=
-      Done {| r_branch := br; r_obj := obj; r_same := same2;
-              r_caller := match supplied with
-                          | Some _ => Some (if same2 then obj else e0) | None => None end;
-              r_returned := if do_return then Some obj else None;
-              r_complex := tag2; r_info := c_return_info c;
-              r_exit := exit_status_of msg; r_msg := msg; r_l2 := l2; r_l2_refe := l2_refe2;
-              r_it := it; r_ssl_it := ssl_it; r_errs := errs' |} in
-    if ssl2 then
-      match krylov_ctl c l2_refe2 obj2 tr
-              {| k_l2 := l2_2; k_ssl_it := 0; k_varit := 0; k_msg := msg2; k_errs := errs |} with
+    let e0 := e0_of supplied in
+    let tag0 := tag0_of s supplied in
+    let do_return := do_return_of c supplied in
+    let l2_0 := l2_0_of supplied in
+    let errs := [s_norm s] in
+    if zs_of s then
+      (* zero source: l2_refe = nan, both solvers off, zero field *)
+      let same := match supplied with Some _ => v_zero_inplace VV | None => true end in
+      let msg := zero_source_message in
+      Done {| r_branch := BZero; r_obj := zero; r_same := same;
+              r_caller := caller_of supplied same zero;
+              r_returned := if do_return then Some zero else None;
+              r_complex := if same then tag0 else s_complex s; r_info := c_return_info c;
+              r_exit := exit_status_of msg; r_msg := msg;
+              r_l2 := if v_zero_l2 VV then nofZ 0 else l2_0; r_l2_refe := nan;
+              r_it := 0; r_ssl_it := 0; r_errs := errs |}
+    else if good_of c s supplied then
+      let msg := good_enough_message in
+      Done {| r_branch := BGood; r_obj := e0; r_same := true;
+              r_caller := caller_of supplied true e0;
+              r_returned := if do_return then Some e0 else None;
+              r_complex := tag0; r_info := c_return_info c;
+              r_exit := exit_status_of msg; r_msg := msg; r_l2 := l2_0; r_l2_refe := s_norm s;
+              r_it := 0; r_ssl_it := 0; r_errs := errs |}
+    else if c_ssl c then
+      match krylov_ctl c (s_norm s) e0 tr (kst0 s supplied) with
       | None => Stuck
-      | Some (x, k) => finish x (k_l2 k) (k_msg k) (k_varit k) (k_ssl_it k) (k_errs k)
+      | Some xk =>
+          let x := fst xk in let k := snd xk in
+          Done {| r_branch := BKrylov; r_obj := x; r_same := true;
+                  r_caller := caller_of supplied true x;
+                  r_returned := if do_return then Some x else None;
+                  r_complex := tag0; r_info := c_return_info c;
+                  r_exit := exit_status_of (k_msg k); r_msg := k_msg k; r_l2 := k_l2 k;
+                  r_l2_refe := s_norm s; r_it := k_varit k; r_ssl_it := k_ssl_it k;
+                  r_errs := k_errs k |}
       end
-    else if cyc2 then
-      let r := mg_solve c l2_refe2 obj2 msg2 errs in
+    else (* c_cycle c holds here: MGParameters rejected the other case *)
+      let r := mg_solve c (s_norm s) e0 "" errs in
       if snd r then
-        let m := snd (fst r) in
-        finish (fst (fst r)) (m_l2 m) (m_msg m) (m_varit m) 0 (m_errs m)
-      else Stuck
-    else finish obj2 l2_2 msg2 0 0 errs.
+        let m := snd (fst r) in let x := fst (fst r) in
+        Done {| r_branch := BMG; r_obj := x; r_same := true;
+                r_caller := caller_of supplied true x;
+                r_returned := if do_return then Some x else None;
+                r_complex := tag0; r_info := c_return_info c;
+                r_exit := exit_status_of (m_msg m); r_msg := m_msg m; r_l2 := m_l2 m;
+                r_l2_refe := s_norm s; r_it := m_varit m; r_ssl_it := 0; r_errs := m_errs m |}
+      else Stuck.
+
+  (* ---- vocabulary of the theorems (Props/C01.v) -------------------------------------- *)
+  (* oracle contracts *)
+  Definition krylov_contract (c : cfg) (s : src) (tr : list kev) : Prop :=
+    forall x, In (Return x 0) tr -> leb (resnorm x) (mul (c_tol c) (s_norm s)) = true.
+  Definition krylov_pec (tr : list kev) : Prop :=
+    forall x code, In (Return x code) tr -> pec x = x.
+  Definition pec_laws : Prop :=
+    (forall x, pec (pec x) = pec x) /\ pec zero = zero /\
+    (forall x, pec x = x -> pec (mg_init x) = mg_init x) /\
+    (forall k x, pec x = x -> pec (mg_cycle k x) = mg_cycle k x).
+  (* what a successful run guarantees for a field [e] the caller holds *)
+  Definition certified (c : cfg) (s : src) (r : result) (e : fld) : Prop :=
+    match r_branch r with
+    | BZero => zero_source num ltb tiny100 (s_norm s) = true /\ e = zero
+    | BGood | BMG => ltb (resnorm e) (mul (c_tol c) (s_norm s)) = true
+    | BKrylov => leb (resnorm e) (mul (c_tol c) (s_norm s)) = true
+    end.
+  Definition error_describes (r : result) (e : fld) : Prop :=
+    match r_branch r with
+    | BZero => r_l2 r = nofZ 0
+    | _ => r_l2 r = resnorm e
+    end.
 End Ctl.
 
 (* ---- executable number type for the correspondence: finite rationals (every
